@@ -33,7 +33,7 @@ ALPHA = {
     "REF": "#@157+- x0",
 }
 CONTEXTS = [",", ")", " ,", "\t\n)", ""]           # delimiter contexts (the empty one = end of input)
-COMMENT_CTX = ["/*c*/,", " /* c */ )"]             # comment between the value and its delimiter
+COMMENT_CTX = ["/*c*/,", " /* c **/ )"]            # comment between the value and its delimiter (odd / even run of `*`)
 
 
 def hx(b):
@@ -88,6 +88,10 @@ def real_grid(step):
         for m in MANTS:
             for s in ("", "-"):
                 out.append(float(f"{s}{m}e{e}"))
+    for e in (15, 16, 20, 21, 99, 100, 101, 300, -4, -5, -6, -7, -99, -100, -101):   # around the %G style switch and 2/3-digit exponents
+        for m in MANTS:
+            for sgn in ("", "-"):
+                out.append(float(f"{sgn}{m}e{e}"))
     out += [0.0, -0.0, 1.0, 0.1, 0.5, 100.0, 123456789012345.0, 1e15, 1e14, 99999999999999.9, 0.0001, 0.00001, 1e-5, 123.456]
     return out
 
@@ -134,6 +138,37 @@ def parse_r(s):
     return d
 
 
+def layout_len(b):
+    """length of the layout prefix of b: blanks and Part 21 comments (a comment ends at the first `*/` after its
+    opener; one that is never closed swallows the rest)"""
+    i = 0
+    while True:
+        while i < len(b) and b[i:i + 1] in b" \t\n\r\v\f":
+            i += 1
+        if b[i:i + 2] == b"/*":
+            j = b.find(b"*/", i + 2)
+            if j < 0:
+                return len(b)
+            i = j + 2
+            continue
+        return i
+
+
+def comment_bodies(depth):
+    """a small grammar of comment shapes: empty, stars at start / middle / end, odd and even runs of `*`, `/` inside,
+    nested-looking `/*`; only bodies whose closing `*/` is the first one"""
+    pieces = ["", "x", " ", "*", "**", "***", "****", "/", "/*", "a*b", "a**b", "* ", " *"]
+    out, seen = [], set()
+    for n in range(1, depth + 1):
+        for t in itertools.product(pieces, repeat=n):
+            body = "".join(t)
+            if body in seen or (body + "*/").find("*/") != len(body):
+                continue
+            seen.add(body)
+            out.append(body)
+    return out
+
+
 # ------------------------------------------------------------------------------------------------ the oracle
 def oracle(kind, opt, tok, ctx, real, verdict):
     """C09's statement on one answer of the implementation.  Returns None or a description of the failure."""
@@ -145,8 +180,10 @@ def oracle(kind, opt, tok, ctx, real, verdict):
     cls, want = verdict.split()[1], verdict.split()[2]
     tokb = tok.encode("latin-1")
     ctxb = ctx.encode("latin-1")
-    ws = len(ctxb) - len(ctxb.lstrip(b" \t\n\r\v\f"))
-    has_delim = len(ctxb) > ws and ctxb[ws:ws + 1] in (b",", b")")
+    ws = layout_len(ctxb)          # blanks and comments between the value and its delimiter
+    if len(ctxb) > ws and ctxb[ws:ws + 1] not in (b",", b")"):
+        return None                # garbage follows: not a delimiter context, the statement does not apply
+    has_delim = len(ctxb) > ws
     delim_at = len(tokb) + ws
     stripped = tokb.strip(b" \t\n\r\v\f")
     if stripped == b"" and not has_delim:
@@ -234,6 +271,11 @@ def evaluate(ctx, batch, real_cmd, model_cmd, env, problems, reasons):
             if why:
                 rs = (kind, reason_of(why))
                 vkey = key_of(kind, opt, tok, c)
+                if tok.strip(" \t\n\r\v\f") == "" and "/*" in c[:layout_len(c.encode("latin-1"))]:
+                    # no token at all, a comment stands where the value should be: the listed API-level finding
+                    rs = ("cv", "cv")
+                    vkey = "ctx:comment-in-place-of-value"
+                    why = "a comment where the value should be: " + why
                 if batch.label == "nul-byte":
                     rs = ("nul", "nul")
                     vkey = "ctx:nul-byte-taken-for-a-delimiter"
@@ -243,10 +285,8 @@ def evaluate(ctx, batch, real_cmd, model_cmd, env, problems, reasons):
                     vkey = "ctx:comment-in-place-of-value"
                     why = "a comment where the value should be: " + why
                 if batch.label == "comment-context":
-                    # one finding for all kinds: CheckRemainingInput treats a comment before the delimiter as garbage
-                    rs = ("comment", "comment")
-                    vkey = "ctx:comment-between-value-and-delimiter"
-                    why = "comment between a value and its delimiter: " + why
+                    vkey = key_of(kind, opt, tok, c) + ":ctx=" + hx(c)
+                    why = f"comment context {c!r}: " + why
                 from vlib import findings as KF
                 if KF.lookup(ctx.pid, vkey) if hasattr(ctx, "pid") else None:
                     # a listed finding: announce it (once per key), do not let it mask other inputs of the same class
@@ -326,7 +366,7 @@ def literal_batches(ctx, quick):
     b = Batch("corpus")
     for kind in KINDS:
         for tok in corp.get(kind, []) + corp.get("ALL", []):
-            for c in CONTEXTS[:3]:
+            for c in CONTEXTS[:3] + COMMENT_CTX:
                 for opt in (0, 1):
                     b.rd(kind, opt, tok, c)
     out.append(b)
@@ -338,6 +378,8 @@ def literal_batches(ctx, quick):
             for c in CONTEXTS:
                 for opt in (0, 1):
                     b.rd(kind, opt, tok, c)
+            for c in COMMENT_CTX:
+                b.rd(kind, 0, tok, c)
         out.append(b)
         # longer tokens: one context, required attribute; the alphabet is pruned to the characters that can occur in
         # a token the reader does not reject at its first character
@@ -348,13 +390,20 @@ def literal_batches(ctx, quick):
             for t in itertools.product(core, repeat=n):
                 b.rd(kind, 0, "".join(t), ",")
         out.append(b)
-    # comment between value and delimiter (DESIGN §6 #19, shared with C01)
+    # comment between value and delimiter (DESIGN §6 #19): every kind x comment shapes x both delimiters x blanks around
     b = Batch("comment-context")
+    bodies = comment_bodies(2 if quick else 3)
     for kind in KINDS:
-        for tok in corp.get(kind + "_valid", []):
-            for c in COMMENT_CTX:
+        toks = corp.get(kind + "_valid", [])[:2 if quick else 4]
+        for tok in toks:
+            for body in bodies:
+                for d in (",", ")"):
+                    for pre, post in (("", ""), (" ", " ")) if quick else (("", ""), (" ", ""), ("", "\n"), (" ", " ")):
+                        b.rd(kind, 0, tok, f"{pre}/*{body}*/{post}{d}'next')")
+            # two comments in a row, an unterminated one
+            for c in ("/*a*//**/,", "/* a **/ /* b */)", "/* never closed , )"):
                 b.rd(kind, 0, tok, c)
-    out.append(b)
+    out.insert(0, b)       # short valid tokens first: a failure here is reported with the smallest replay
     # what follows the value, exhaustively over blanks / comment characters / garbage / delimiters: model vs implementation
     # only (most of these are not delimiter contexts, so the statement's oracle does not apply)
     b = Batch("separator-exhaustive")
